@@ -124,6 +124,7 @@ func runC12(c *core.Ctx) {
 	c.RuleDoc("R12.5", "pool buffers are returned, once")
 	c.RuleDoc("R12.8", "the final wait re-checks the error channel when the writers' completion wins the select")
 	c.RuleDoc("R12.7", "directory entries are created in the foreground")
+	c.RuleDoc("R12.12", "the buffer pool never provisions more buffers than its channel holds (unpacking finishes)")
 	c.RuleDoc("R12.10", "an entry is reported done only after it was created, written or handed to a writer")
 	c.RuleDoc("R12.11", "the default destination (mem/keyvalue) copies written bytes: the reader recycles its buffers (= R02.16)")
 	c.RuleDoc("R12.9", "entry bytes are copied by read loops that keep the bytes arriving with io.EOF and never stop at a short count")
@@ -143,6 +144,7 @@ func runC12(c *core.Ctx) {
 		r12Normaliser(c, p, sh)
 		readDiscipline(c, p, "R12.9", pkgFuncs(p, "tar"))
 		r12EveryEntryProcessed(c, p, sh)
+		r12PoolBound(c, p, "R12.12")
 		if fileT := p.Named("keyvalue", "file"); fileT != nil {
 			r02NoAdopt(c, p, fileT, "R12.11")
 		} else {
@@ -159,6 +161,7 @@ func runC12(c *core.Ctx) {
 	c.Floor("R12.8", 1)
 	c.Floor("R12.9", 1)
 	c.Floor("R12.10", 1)
+	c.Floor("R12.12", 1)
 	c.Floor("R12.11", 3)
 }
 
@@ -902,5 +905,61 @@ func r12EveryEntryProcessed(c *core.Ctx, p *load.Program, sh *tarShape) {
 		c.Bad("R12.10", key, skip, fmt.Sprintf("%s returns nil at %s on a path on which the entry was neither created as a directory, written, nor handed to a background writer: the entry is silently skipped (a directory entry such as './' keeps the destination's default mode instead of its own permission bits; a file entry is missing)", fname(fn), skip))
 	default:
 		c.OK("R12.10", key, p.Pos(fn.Pos()), "every successful return follows the directory creation, the file write or the hand-over to a writer")
+	}
+}
+
+// r12PoolBound (R12.12 / R13.11): the bounded buffer pool never provisions more buffers than its channel holds: the
+// compare-and-swap that reserves a slot (count -> count+1) is reached only where `count == cap(buffers)` is excluded
+// (with count <= cap as the inductive invariant). With `count > cap` as the only refusal the pool creates cap+1
+// buffers; when all are handed back the last Done() blocks on the full channel for ever: that writer never reports,
+// and Done() of the file system never closes although every file was written.
+func r12PoolBound(c *core.Ctx, p *load.Program, rule string) {
+	n := 0
+	for _, fn := range pkgFuncs(p, "tar") {
+		ssax.Instrs(fn, func(ins ssa.Instruction) {
+			cl, ok := ins.(*ssa.Call)
+			if !ok || !ssax.CalleeIs(cl, "sync/atomic", "CompareAndSwapInt64") || len(cl.Call.Args) != 3 {
+				return
+			}
+			old := stripConv(cl.Call.Args[1])
+			n++
+			key := fname(fn) + "|slot-reserved-below-capacity"
+			good := false
+			for _, f := range ssax.FactsAtInstr(cl) {
+				bo, ok := f.Cond.(*ssa.BinOp)
+				if !ok {
+					continue
+				}
+				x, y := stripConv(bo.X), stripConv(bo.Y)
+				op := bo.Op
+				isCap := func(v ssa.Value) bool {
+					cc, ok := v.(*ssa.Call)
+					if !ok {
+						return false
+					}
+					b, ok := cc.Call.Value.(*ssa.Builtin)
+					return ok && b.Name() == "cap"
+				}
+				switch {
+				case x == old && isCap(y):
+				case y == old && isCap(x):
+					op = flipRel(op)
+				default:
+					continue
+				}
+				if !f.Val {
+					op = negRel(op)
+				}
+				// now: count OP cap holds
+				if op == token.LSS || op == token.NEQ {
+					good = true
+				}
+			}
+			c.Check(good, rule, key, p.Pos(cl.Pos()), "a slot is reserved only where count != cap (count < cap) is known",
+				fmt.Sprintf("%s reserves a buffer slot (count -> count+1) where count == cap(buffers) is not excluded: the pool provisions one buffer more than its channel holds, the last Done() of an unpack blocks on the full channel, its writer never reports and the file system's Done() never closes", fname(fn)))
+		})
+	}
+	if n == 0 {
+		c.Hard("anchor: slot reservation (CompareAndSwap) of the tar buffer pool")
 	}
 }
